@@ -629,6 +629,8 @@ fn ascii_string() -> impl Strategy<Value = Vec<u8>> {
         1 => Just(b"\"".to_vec()),
         1 => Just(b"\"\"".to_vec()),
         2 => (56usize..300, proptest::collection::vec(0usize..300, 0..5)).prop_map(|(n, qs)| { let mut v = vec![b'a'; n]; for q in qs { if q < n { v[q] = b'"'; } } v }),
+        // every offset 0..=600 holds a quote in some case: a string of n characters ending in a quote, and one with a quote pair
+        1 => (1usize..=600, any::<bool>()).prop_map(|(n, pair)| { let mut v = vec![b'b'; n]; v[n - 1] = b'"'; if pair && n >= 2 { v[n - 2] = b'"'; } v }),
         1 => proptest::collection::vec(any::<u8>(), 1..10),
     ]
 }
@@ -658,6 +660,8 @@ fn text7() -> impl Strategy<Value = Vec<u8>> {
     prop_oneof![
         3 => "[ -~]{1,24}".prop_map(String::into_bytes),
         2 => "[a-z\" ;,]{1,12}".prop_map(String::into_bytes),
+        // long texts with quotes at arbitrary offsets (escaping works in pieces in some implementations)
+        1 => (56usize..300, proptest::collection::vec(0usize..300, 0..5), any::<u8>()).prop_map(|(n, qs, a)| { let mut v: Vec<u8> = (0..n).map(|i| b'a' + ((i + a as usize) % 26) as u8).collect(); for q in qs { if q < n { v[q] = b'"'; } } v }),
     ]
 }
 
@@ -769,5 +773,36 @@ fn run(e: &Engine) {
             );
         }
     }
+    // bounded-exhaustive: a string / error text of EVERY length up to 640 (320) with a quote (and a
+    // quote pair) at EVERY offset: escaping that works through a window or in pieces fails at one offset
+    let max_n = if cfg!(debug_assertions) { 200u64 } else { e.tier.pick(640u64, 1100) };
+    e.enumerate::<Case, _, _>(
+        "every-length-and-quote-offset",
+        max_n,
+        |part, f| {
+            let n = part as usize + 1;
+            for p in 0..n {
+                for pair in [false, true] {
+                    let mut v = vec![b'c'; n];
+                    v[p] = b'"';
+                    if pair {
+                        if p + 1 >= n {
+                            continue;
+                        }
+                        v[p + 1] = b'"';
+                    }
+                    if !f(Case::Str(v.clone())) {
+                        return;
+                    }
+                    if n <= 320 && !pair {
+                        if !f(Case::CustomError { code: -(n as i16), msg: v.clone(), ext: None }) || !f(Case::CustomError { code: n as i16, msg: b"M".to_vec(), ext: Some(v) }) {
+                            return;
+                        }
+                    }
+                }
+            }
+        },
+        check,
+    );
     e.proptest("values-of-every-type", e.tier.pick(1_000_000, 30_000_000), case_strategy, check);
 }
